@@ -318,15 +318,22 @@ def trace_locate(ctx, path, n):
         return
     from AEIC.trajectories import TrajectoryStore
 
-    code = getattr(TrajectoryStore._load_trajectory, '__wrapped__', TrajectoryStore._load_trajectory).__code__
+    hostf = getattr(TrajectoryStore, P.get('host', '_load_trajectory'), None)
+    if hostf is None:
+        return
+    code = getattr(hostf, '__wrapped__', hostf).__code__
     ivar, fvar, gvar = P['vars']
     obs = []
 
     def local(frame, event, arg):
         if event == 'return':
             loc = frame.f_locals
-            nf = loc.get('nc_files')
-            obs.append((loc.get(ivar), loc.get(fvar), loc.get(gvar), list(getattr(nf, 'size_index', None) or [])))
+            try:
+                szv = list(eval(P.get('size_expr', 'nc_files.size_index'), {}, dict(loc)) or [])  # noqa: S307 (an expression of the source)
+            except Exception:  # noqa: BLE001
+                szv = []
+            g_ = loc.get(gvar) if gvar else (arg[1] if isinstance(arg, tuple) and len(arg) == 2 else None)
+            obs.append((loc.get(ivar), loc.get(fvar), g_, szv))
         return local
 
     def tracer(frame, event, arg):
@@ -355,6 +362,12 @@ def trace_locate(ctx, path, n):
         gc.collect()
     for idx, f, g, size_index in obs:
         if idx is None or not size_index:
+            continue
+        if size_index != sorted(size_index) or size_index[-1] != n:
+            # the size index must hold the cumulative trajectory counts of the files (whichever way the source builds it)
+            sm['mismatches'] += 1
+            ctx.diverge('size index of a merged store', {'size_index': size_index, 'store_length': n},
+                        'the size index is not a non-decreasing list ending at the number of trajectories')
             continue
         sm['lookups'] += 1
         ctx.evaluations += 1
